@@ -364,6 +364,21 @@ def e2e_family():
                   "trig": [c(t) for t in trig_names], "left": c("1"), "right": c("2"), "acs": [c("1"), c("2")],
                   "lk": 0, "ll": 0}
         fam.append((name, kbd, params, [c("a"), c("b"), c("c")]))
+    # a fork / switch performed indirectly -- as the action of a virtual key tapped by the physical key, as the action
+    # of a (single-key, hence immediate) v1 chord -- decides in the state of that moment like one bound directly
+    def indirect(name, kind, top, dkey):
+        kbd = "(defsrc a b c d)\n%s(deflayer l0 a b c %s)\n" % (top, dkey)
+        params = {"kind": kind, "sk": c("d"), "win": 10, "ageoff": 0,
+                  "cases": [{"cond": [K("a")], "ac": c("1"), "brk": True}, {"cond": [OP("not", K("b"))], "ac": c("2"), "brk": False},
+                            {"cond": [], "ac": c("3"), "brk": True}] if kind == "switch" else [],
+                  "trig": [c("a")] if kind == "fork" else [], "left": c("1"), "right": c("2"),
+                  "acs": [c("1"), c("2"), c("3")], "lk": 0, "ll": 0}
+        fam.append((name, kbd, params, [c("a"), c("b"), c("c")]))
+    FK, SWI = "(fork 1 2 (a))", "(switch (a) 1 break ((not b)) 2 fallthrough () 3 break)"
+    indirect("fork_via_vkey", "fork", "(defvirtualkeys v %s)\n" % FK, "(on-press-fakekey v tap)")
+    indirect("fork_via_chord", "fork", "(defchords g 10 (p) %s)\n" % FK, "(chord g p)")
+    indirect("switch_via_vkey", "switch", "(defvirtualkeys v %s)\n" % SWI, "(on-press-fakekey v tap)")
+    indirect("switch_via_chord", "switch", "(defchords g 10 (p) %s)\n" % SWI, "(chord g p)")
     fork("fork_mods", "a lsft c", ["a", "lsft"], [])       # b outputs lsft: a trigger
     fork("fork_remap", "z b a", ["a"], [])                  # physical a outputs z (no trigger), physical c outputs a
     fork("fork_chord", "S-x b c", ["lsft", "c"], [])        # a outputs lsft+x
@@ -947,6 +962,11 @@ def run(tier, seed):
         params = {"kind": "term", "sk": sw_key, "win": TERM_WIN, "ageoff": 0, "cases": [], "trig": [], "left": 0, "right": 0,
                   "acs": tm["acs"], "lk": 0, "ll": 0, "term": tm["term"]}
         e2e_jobs.append({"cfg": tm["cfg"], "params": params, "tag": "term:" + iid[2:], "scripts": [term_script(rng, TERM_WIN)]})
+    # the documented short spellings of the action keywords (fork / switch / tap-hold-press ... ) denote the same actions
+    n_term_jobs = len(term_e2e)
+    base, termj = e2e_jobs[:len(e2e_jobs) - n_term_jobs], e2e_jobs[len(e2e_jobs) - n_term_jobs:]
+    twins = spelling_twins(base, keep=3) + spelling_twins(rng.sample(termj, min(len(termj), 150)))
+    e2e_jobs += twins
     e2e_jobs = shard_local_index(e2e_jobs)
     outs = run_jobs(e2e_jobs, wd, "c10_e2e")
     trace = concat_traces(outs, os.path.join(wd, "c10_e2e.trace.ndjson"))
@@ -1026,6 +1046,7 @@ def run(tier, seed):
         "tlc_runs": [{k: t[k] for k in ("name", "mode", "variant", "states", "lines", "wall_s")} for t in tl],
         "proposed_fix_model": fixed_run,
         "e2e": {"configs": len(fam) + len(tfam) + len(term_e2e), "scripts": len(e2e_jobs), "switch_or_fork_presses_judged": n_press,
+                "short_spelling_twin_configs": len(twins),
                 "key_timing_long_gap_rounds": n_long_rounds, "key_timing_families_also_through_blocking_stepper": len(tfam),
                 "ticks_slept_by_blocking_stepper": n_skipped,
                 "key_timing_long_gap_ages": {"per_threshold": {str(k): v for k, v in sorted(ages_of.items())}, "global": ages_global},
